@@ -32,6 +32,7 @@ def programs():
     add("TV_assign", ("Plain", "fn"), "e.v_fn = e.p_fn;", "reject")
     add("T_init_copy", ("Plain", "fn"), "T_<Fn> x = e.p_fn; (void)x;", "reject")
     add("TV_assign", ("Plain", "parr"), "e.v_parr = e.p_parr;", "reject", "array of raw pointers")
+    add("TV_assign", ("Plain", "sarr"), "e.v_parr = e.p_sarr;", "reject", "std::array of raw pointers")
     add("TV_deref_assign", ("Plain", "pint"), "*e.t_ppint = e.p_pint;", "reject")
     add("TV_index_assign", ("Plain", "pint"), "e.t_ppint[0] = e.p_pint;", "reject")
     add("TV_field_assign", ("Plain", "pint"), "e.t_pst->p = e.p_pint;", "reject")
@@ -92,6 +93,7 @@ def programs():
     return P
 
 
+FAMILIES = ["noop", "verif", "verif64"]
 CHECKED = ["assign_raw_pointer", "assign_raw_pointer_vol", "UNSAFE_accept_pointer", "get_app_pointer"]
 D14_NOTES = ("D14",)
 
@@ -126,14 +128,14 @@ def run(tier, seed, replay):
         ctx.notes.append("framework build problem:\n" + out[-2000:])
     progs = programs()
     try:
-        m2.judge(ctx, progs, ["noop", "verif"])
+        m2.judge(ctx, progs, FAMILIES)
     except RuntimeError as ex:
         ctx.violations.append({"kind": "broken-correspondence", "case": "m2 environment", "what": str(ex)[:3000], "impl": "", "model": "", "spec": "", "class": ""})
         return vlib.finish(ctx, trusted=TRUSTED + vlib.COMMON_TRUSTED, assumptions=ASSUMPTIONS, rule=RULE)
     ids = m2.Ids()
     known = {k["id"]: k for k in vlib.load_known()["known"] if k["property"] == PROP}
     bad, known_seen, vacuous = [], [], []
-    for fam in ("noop", "verif"):
+    for fam in FAMILIES:
         for p in progs:
             v = p.verdict[fam]
             if p.expect == "reject" and v is not None:
@@ -145,13 +147,13 @@ def run(tier, seed, replay):
                 vacuous.append((fam, p))
     # ---- generated Coq table: forbidden operands are encoded by kind: Plain pointer-like types, Foreign, BadSig ----
     m2.KIND_COQ.update({"Foreign": "KAppPtr", "BadSig": "KIntHint", "GoodSig": "KBoolHint"})   # only tags inside this table
-    ptrish = ["pint", "pcchar", "pvoid", "pst", "fn", "parr", "st"]
+    ptrish = ["pint", "pcchar", "pvoid", "pst", "fn", "parr", "st", "sarr"]
     lines = ["(* generated by harness/props/c02.py from the compiler's verdicts on /repo's headers — do not edit *)",
              "From RLBoxV Require Import Typing Typing_proofs.", "Local Open Scope nat_scope.", "",
              "(* encoding of operand classes in this table: Plain + pointer-like type = raw application pointer / array of raw pointers /",
              "   raw function pointer / plain struct; KAppPtr = wrapper of ANOTHER sandbox type; KIntHint = non-conforming callback signature;",
              "   KBoolHint = conforming callback signature; mismatched pointer/function types are marked by the type id *)"]
-    for fam in ("noop", "verif"):
+    for fam in FAMILIES:
         rows = []
         for p in progs:
             if p.note.startswith("D14") and p.verdict[fam] is not None and KNOWN_D14 in known:
@@ -175,7 +177,7 @@ def run(tier, seed, replay):
               "  (kind_eqb (wk w) Plain && memb (wty w) raw_types) || kind_eqb (wk w) KAppPtr || kind_eqb (wk w) KIntHint || memb (wty w) mismatch_types.",
               "Definition checked_entry (f : nat) : bool := memb f checked_forms.",
               ""]
-    for fam in ("noop", "verif"):
+    for fam in FAMILIES:
         lines += ["Theorem table_%s_ok : forallb (sink_ok is_sink forbidden checked_entry) table_%s = true." % (fam, fam),
                   "Proof. vm_compute. reflexivity. Qed.",
                   "Theorem C02_current_tree_%s : forall e w, ty table_%s e = Some w -> sinks_clean is_sink forbidden checked_entry table_%s e = true." % (fam, fam, fam),
@@ -190,9 +192,9 @@ def run(tier, seed, replay):
     finally:
         lock.close()
     thm_ok, thm_out = vlib.check_theorems(ctx, PROP, COQ_FILES)
-    n_entries = 2 * len(progs)
-    ctx.coverage["obligations"] = ctx.coverage.get("obligations", 0) + 4 + n_entries
-    ctx.coverage["discharged"] = ctx.coverage.get("discharged", 0) + (4 + n_entries if rc == 0 else 0)
+    n_entries = len(FAMILIES) * len(progs)
+    ctx.coverage["obligations"] = ctx.coverage.get("obligations", 0) + 2 * len(FAMILIES) + n_entries
+    ctx.coverage["discharged"] = ctx.coverage.get("discharged", 0) + (2 * len(FAMILIES) + n_entries if rc == 0 else 0)
     ctx.coverage["programs"] = n_entries
     # ---- run-time half (M1) ----
     exes, errs = vlib.compile_drivers(ctx, RT_DRIVERS)
@@ -220,7 +222,7 @@ def run(tier, seed, replay):
     ctx.coverage["compile_table"] = {"programs": len(progs), "accepted_noop": sum(1 for p in progs if p.verdict["noop"] is not None),
                                      "accepted_verif": sum(1 for p in progs if p.verdict["verif"] is not None)}
     ctx.coverage.setdefault("samples", [])
-    ctx.coverage["samples"] = [{"program": p.stmt, "expect": p.expect, "noop": "accepted" if p.verdict["noop"] else "rejected", "verif": "accepted" if p.verdict["verif"] else "rejected",
+    ctx.coverage["samples"] = [{"program": p.stmt, "expect": p.expect, "noop": "accepted" if p.verdict["noop"] else "rejected", "verif": "accepted" if p.verdict["verif"] else "rejected", "verif64": "accepted" if p.verdict["verif64"] else "rejected",
                                 "diagnostic": p.diag.get("noop", "")[:120]} for p in progs[::9]] + ctx.coverage["samples"][:6]
     # ---- verdict ----
     if KNOWN_D14 in known:
@@ -245,7 +247,7 @@ def run(tier, seed, replay):
     return vlib.finish(ctx, trusted=TRUSTED + vlib.COMMON_TRUSTED, assumptions=ASSUMPTIONS, rule=RULE)
 
 
-RULE = ("compile-time half: regenerated table of ~90 one-statement programs x 2 sandbox-type families (no-op: void* representation; verif: integer representation): every store/initialisation/"
+RULE = ("compile-time half: regenerated table of ~90 one-statement programs x 3 sandbox-type families (no-op: void* representation; verif: 32-bit integer representation; verif64: integer representation as wide as a host pointer): every store/initialisation/"
         "assignment shape into tainted and tainted_volatile (scalar, dereference, index, struct field), sandbox-call arguments, callback registrations (4 conforming signatures, 9 signatures "
         "each violating one condition), rlbox::memcpy/memset destinations and free_in_sandbox, with operands {raw data pointers of 4 types, raw function pointer, array of raw pointers, plain "
         "struct, wrappers and callbacks of another sandbox type, callbacks / pointers of mismatching type} plus the conforming operands (must be accepted: non-vacuity). Run-time half: "
